@@ -96,6 +96,8 @@ inductive XOp where
   | purge (funds pre : Bool)
   /-- clock, whitelist-side edits, every other `ExecuteMsg` variant, `migrate` -/
   | env
+  /-- governance replaces the factory's `max_per_address_limit` (read live by `UpdatePerAddressLimit`) -/
+  | govern (maxPer : Nat)
 
 /-- the `MintLimits.Op` an `XOp` runs -/
 def XOp.toOp : XOp → Op
@@ -105,6 +107,7 @@ def XOp.toOp : XOp → Op
   | .setWhitelist s id wk fu st oa na pre => .setWhitelist s id wk fu st oa na pre
   | .purge fu pre => .purge fu pre
   | .env => .env
+  | .govern mp => .govern mp
 
 def XOp.mints : XOp → Bool
   | .mint .. => true
